@@ -267,6 +267,14 @@ def _index_cases():
         for combo in itertools.permutations(["s1", "s2", "d1", "s3"], k):
             expr = " + ".join(f"anp.sum({uses[u]}) * {i + 2}" for i, u in enumerate(combo))
             C.append(dict(label=f"mix[{','.join(combo)}]|(3,)|arg0", src=f"lambda anp, x: {expr}", shapes=[(3,)], argnum=0, mode="sym", second=True))
+    # the same at rank 0 (the sum of two 0-d cotangents is a NumPy scalar, not an array)
+    uses0 = {"s1": "x[()]", "s2": "x[...]", "s3": "x[None][0]", "d1": "x * 2", "d2": "x * 3"}
+    for k in (2, 3, 4):
+        for combo in itertools.permutations(["s1", "s2", "d1", "d2", "s3"], k):
+            if not any(u.startswith("s") for u in combo):
+                continue
+            expr = " + ".join(f"{uses0[u]} * {i + 2}" for i, u in enumerate(combo))
+            C.append(dict(label=f"mix0[{','.join(combo)}]|()|arg0", src=f"lambda anp, x: (lambda x: {expr})(anp.array(x))", shapes=[()], argnum=0, mode="flt", second=False))
     # dense contributions that are VIEWS of a shared cotangent (transpose / reshape / ravel), followed or preceded by sparse ones
     W = "__import__('numpy').arange(1.0, 10.0).reshape(3, 3)"
     for lab, expr in (("view-T+sparse", f"anp.sum({W} * (x * x + (x[[0, 0, 2]] + x.T)))"), ("sparse+view-T", f"anp.sum({W} * ((x[[0, 0, 2]] + x.T) + x * x))"),
@@ -530,6 +538,11 @@ def run(rep, tier, clauses, which="rules"):
             if cl == "X-error":
                 rep.bounded_case((label, cl), sample=None)
                 rep.violation(f"E4:X-error", label, f"{label}: {detail}", replay=dict(module="contracts.rules_exact", label=label, which=which, tier=tier), witness=True)
+                continue
+            if cl.endswith("-raises") and label.startswith("mix"):
+                # C11 is unconditional for mixes of sparse and dense uses (no "or raises"): an exception here is a violation
+                rep.bounded_case((label, cl))
+                rep.violation(f"E4:{cl}", label, f"{label}: {detail}", replay=dict(module="contracts.rules_exact", label=label, which=which, tier=tier), witness=True)
                 continue
             if cl.endswith("-raises"):
                 rep.bounded_case((label, cl))
